@@ -14,6 +14,7 @@ import (
 	"slices"
 	"strings"
 	"sync"
+	"sync/atomic"
 	"time"
 
 	"github.com/sourcegraph/jsonrpc2"
@@ -161,6 +162,12 @@ type LanguageServer struct {
 
 	workspaceRootURI string
 	clientIdentifier clients.Identifier
+
+	// initializeDone is set once the initialize request has been handled.
+	// Workers driven by a timer rather than by a request must not read the
+	// fields set there (workspaceRootURI, clientIdentifier, bundleCache, ...)
+	// before: nothing else orders their reads after these writes.
+	initializeDone atomic.Bool
 
 	workspaceDiagnosticsPoll time.Duration
 }
@@ -961,6 +968,10 @@ func (l *LanguageServer) StartWorkspaceStateWorker(ctx context.Context) {
 		case <-ctx.Done():
 			return
 		case <-timer.C:
+			if !l.initializeDone.Load() {
+				continue
+			}
+
 			// first clear files that are missing from the workspaceDir
 			for fileURI := range l.cache.GetAllFiles() {
 				filePath := uri.ToPath(l.clientIdentifier, fileURI)
@@ -2439,6 +2450,8 @@ func (l *LanguageServer) handleInitialize(ctx context.Context, params types.Init
 			OverwriteAggregates: true,
 		}
 	}
+
+	l.initializeDone.Store(true)
 
 	return initializeResult, nil
 }
